@@ -390,7 +390,15 @@ class BoxOracle(object):
                               'raise ValueError (%r)' % (a.get('clip'), res), **self.tags(h))
             if h.started: self.box_changed = True
             elif 'exc' not in res: self.box_from_start = bool(a)
-        self.ep.note(h, op, res)
+            legal = not (a and a.get('tight') is False and a.get('clip') is not None)
+            if 'exc' in res and legal:
+                lo, hi = (a or {}).get('lo', []), (a or {}).get('hi', [])
+                deg = [l == u for l, u in zip(lo, hi)]
+                h.violate(self.P, 'set_ranges_raised', detail='SetStrictRanges(%r) raised %s: %s' % (a, res['exc'], res.get('exc_msg', '')[:120]),
+                          tight=(a or {}).get('tight'), clip=(a or {}).get('clip'), all_degenerate=bool(deg) and all(deg),
+                          exc=res['exc'])
+                # the call failed half way: which box is in force is undefined until the next successful call
+                self.ep.cur['box'] = None; self.box_from_start = False
         if op['op'] == 'set' and op['what'] == 'init' and 'lo' in (op.get('arg') or {}) and 'exc' not in res:
             a = op['arg']
             for i, m in enumerate(h.snap()['population']):
